@@ -95,6 +95,82 @@ func constructKey(fi *FuncInfo, n ast.Node) string {
 	return fi.Name + " " + s
 }
 
+// siteKey names an indexing / slicing / allocation by its operands alone: fields are qualified by the type they
+// belong to, locals with a single definition are replaced by it, other variables by their type. The enclosing
+// function and the spelling of locals do not appear, so the key survives moving the code into a helper.
+func siteKey(p *Program, fi *FuncInfo, e ast.Expr) string {
+	info := fi.Pkg.TypesInfo
+	short := func(t types.Type) string {
+		if t == nil {
+			return "?"
+		}
+		return types.TypeString(t, func(*types.Package) string { return "" })
+	}
+	var canon func(e ast.Expr, depth int) string
+	canon = func(e ast.Expr, depth int) string {
+		e = ast.Unparen(e)
+		if k, ok := constInt(info, e); ok {
+			return fmt.Sprint(k)
+		}
+		switch x := e.(type) {
+		case *ast.Ident:
+			if v, isVar := info.Uses[x].(*types.Var); isVar && !v.IsField() {
+				if depth < 3 {
+					if def := localDef(info, fi, x); def != nil && len(callsIn(def)) <= 1 {
+						return canon(def, depth+1)
+					}
+				}
+				return short(v.Type())
+			}
+			return x.Name
+		case *ast.SelectorExpr:
+			if fv := fieldOf(info, x); fv != nil {
+				return typeNameOf(info.TypeOf(x.X)) + "." + fv.Name()
+			}
+			return exprStr(x)
+		case *ast.IndexExpr:
+			return canon(x.X, depth) + "[" + canon(x.Index, depth) + "]"
+		case *ast.SliceExpr:
+			part := func(e ast.Expr) string {
+				if e == nil {
+					return ""
+				}
+				return canon(e, depth)
+			}
+			return canon(x.X, depth) + "[" + part(x.Low) + ":" + part(x.High) + "]"
+		case *ast.BinaryExpr:
+			return canon(x.X, depth) + x.Op.String() + canon(x.Y, depth)
+		case *ast.UnaryExpr:
+			return x.Op.String() + canon(x.X, depth)
+		case *ast.StarExpr:
+			return canon(x.X, depth)
+		case *ast.CallExpr:
+			if tv, ok := info.Types[x.Fun]; ok && tv.IsType() && len(x.Args) == 1 {
+				return canon(x.Args[0], depth)
+			}
+			var args []string
+			for _, a := range x.Args {
+				if tv, ok := info.Types[a]; ok && tv.IsType() {
+					args = append(args, short(tv.Type))
+					continue
+				}
+				args = append(args, canon(a, depth))
+			}
+			fn := exprStr(x.Fun)
+			if f := calleeOf(info, x); f != nil {
+				fn = f.Name()
+			}
+			return fn + "(" + strings.Join(args, ",") + ")"
+		}
+		return exprStr(e)
+	}
+	s := canon(e, 0)
+	if len(s) > 120 {
+		s = s[:120]
+	}
+	return s
+}
+
 func c05r1(p *Program, r *Report) {
 	sites, err := compilerUnproven(p.RepoDir, p.Variant)
 	if err != nil {
@@ -135,6 +211,9 @@ func c05r1(p *Program, r *Report) {
 			if reason, exempt := safeByInvariant[constructKey(ob.Fn, ob.Node)]; exempt {
 				ok, why = true, "frozen safe-by-invariant: "+reason
 			}
+		}
+		if e, isE := ob.Node.(ast.Expr); isE {
+			r.WithFindKey(siteKey(p, ob.Fn, e))
 		}
 		r.Check(ok, ob.Node, constructKey(ob.Fn, ob.Node), why, "unguarded "+ob.Kind+" on data that can come from the network: "+why)
 	}
@@ -407,12 +486,24 @@ func c05r2(p *Program, r *Report) {
 						}
 					}
 				}
+				if !nn || !bounded {
+					// an allocation of the same size evaluated earlier in the same statement: a negative size panics
+					// there, and this one is no larger than what that one already allocated
+					if stmt := p.stmtOf(c, fi); stmt != nil {
+						ast.Inspect(stmt, func(m ast.Node) bool {
+							if mc, isC := m.(*ast.CallExpr); isC && mc != c && mc.End() <= c.Pos() && calleeName(info, mc) == "builtin.make" && len(mc.Args) >= 2 && exprStr(mc.Args[1]) == exprStr(sz) && len(callsIn(sz)) == 0 {
+								nn, bounded, why = true, true, "same size as the allocation evaluated just before it in the statement"
+							}
+							return true
+						})
+					}
+				}
 				key := constructKey(fi, c)
 				if reason, ok := allocExempt[key]; ok {
 					r.OK(c, key, "frozen: "+reason)
 					continue
 				}
-				r.Check(nn && bounded, c, key, "allocation size non-negative and bounded: "+why,
+				r.WithFindKey(siteKey(p, fi, c)).Check(nn && bounded, c, key, "allocation size non-negative and bounded: "+why,
 					fmt.Sprintf("allocation size %s is taken from decoded data without %s: a negative value panics (re-raised by parseFrame as a runtime error), a huge one allocates gigabytes", exprStr(sz), ifs(!nn, "a sign check", "an upper bound")))
 			}
 			return true
